@@ -1249,6 +1249,33 @@ func c17RepeatedFailures(c *Ctx, maxv string) {
 		}
 	}
 	r.Obs("repeated_failing_requests_sent", sent)
+	// and many short-lived hostile connections (4 at a time): whatever a client connection holds is given back when it ends
+	{
+		var hin []hostile
+		for _, h := range c17ClientInputs(c.Rng(77), maxv, 2600, 1<<20) {
+			k := h.Kind
+			if strings.HasPrefix(k, "header/") && !strings.HasPrefix(k, "header/body-length") || strings.HasPrefix(k, "truncated/") || strings.HasPrefix(k, "string/") && len(h.Bytes) < 4096 || strings.HasPrefix(k, "first-on-connection/") {
+				hin = append(hin, h)
+			}
+		}
+		if len(hin) > c.Pick(1500, 6000) {
+			hin = hin[:c.Pick(1500, 6000)]
+		}
+		var wg sync.WaitGroup
+		sem := make(chan struct{}, 4)
+		for _, h := range hin {
+			if !p.alive() {
+				break
+			}
+			wg.Add(1)
+			sem <- struct{}{}
+			go func(h hostile) { defer wg.Done(); defer func() { <-sem }(); p.sendHostile(h) }(h)
+			r.Eval(1)
+		}
+		wg.Wait()
+		r.Obs("short_lived_hostile_connections_under_fd_limit", len(hin))
+		suspects = append(suspects, fmt.Sprintf("%d short-lived hostile connections", len(hin)))
+	}
 	time.Sleep(200 * time.Millisecond)
 	after := openAtBackend()
 	r.ObsMax("max:backend_connections_open_after_repeated_failures", after)
